@@ -122,7 +122,7 @@ GwsReact(s, sym, k) ==
 React(s, sym, k) == IF Proto = "tws" THEN TwsReact(s, sym, k) ELSE GwsReact(s, sym, k)
 
 \* what an executor may produce
-Whats(kind) == IF kind = "q" THEN {"result", "error"} ELSE {"data", "fin", "error"}
+Whats(kind) == IF kind = "q" THEN {"result", "error", "qflush"} ELSE {"data", "fin", "error"}
 
 \* messages the engine writes for an engine event of executor k (n = number of the data message)
 EngOuts(s, k, what) ==
@@ -135,17 +135,17 @@ EngOuts(s, k, what) ==
 \* executor state after the engine dealt with the event
 AfterEng(s, k, what) ==
   LET x == s.ex[k]
-      n1 == IF what \in {"data", "result"} THEN x.n + 1 ELSE x.n
+      n1 == IF what \in {"data", "result", "qflush"} THEN x.n + 1 ELSE x.n
       again == [x EXCEPT !.st = IF x.canc THEN "done" ELSE "exec", !.n = n1]
       over  == [x EXCEPT !.st = "done", !.n = n1]
       free  == IF s.reg[x.id] = k THEN [s EXCEPT !.reg[x.id] = 0] ELSE s
   IN
-  CASE what = "data" -> [s EXCEPT !.ex[k] = [x EXCEPT !.st = "exec", !.n = n1]]
+  CASE what \in {"data", "qflush"} -> [s EXCEPT !.ex[k] = [x EXCEPT !.st = "exec", !.n = n1]]
     [] x.kind = "q"  -> [free EXCEPT !.ex[k] = over]                       \* result | error: the operation is over
     [] what = "fin"  -> [s EXCEPT !.ex[k] = again]                         \* poll loop: executed again unless cancelled
     [] OTHER         -> IF Impl = "ref" THEN [free EXCEPT !.ex[k] = over]  \* error of a subscription round
                         ELSE [s EXCEPT !.ex[k] = again]                    \* pinned: polling goes on, the id stays taken
 
-Alphabet == {"init", "initrej", "terminate", "ping", "pong", "sub1q", "sub1s", "sub2q", "subbad", "comp1", "comp9", "unknown", "malformed",
+Alphabet == {"init", "initrej", "terminate", "sub1dq", "sub2ds", "ping", "pong", "sub1q", "sub1s", "sub2q", "subbad", "comp1", "comp9", "unknown", "malformed",
              "missingid", "binary", "readerr"}
 =============================================================================
